@@ -16,6 +16,8 @@ CONFIGS = {
     "v0": ("cl0", ["MON_VARIANT=0"]),                  # monitor control, no actions
     "v1": ("asan0", ["MON_VARIANT=1"]),                # void apply/apply0 mix, ASan+UBSan
     "v2": ("cl0", ["MON_VARIANT=2"]),                  # another void mix
+    "v1n": ("cl0", ["MON_VARIANT=1", "MON_TOP_NOTHING"]),   # void actions attached, top-level apply_mode::nothing + rewind_mode::required
+    "v2n": ("cl0", ["MON_VARIANT=2", "MON_TOP_NOTHING"]),
     "v3": ("cl0", ["MON_VARIANT=3"]),                  # void + bool veto
     "v4": ("asan0", ["MON_VARIANT=4"]),                # void + veto + throwing (std and non-std)
     "v5": ("asan0", ["MON_VARIANT=5"]),                # void + state/action/control switches (C13)
@@ -25,6 +27,11 @@ CONFIGS = {
     "bufA1": ("asan0", ["MON_BUF", "MON_BUFSET=0", "MON_VARIANT=1"]),
     "bufA3": ("asan0", ["MON_BUF", "MON_BUFSET=0", "MON_VARIANT=3"]),
     "bufB1": ("asan0", ["MON_BUF", "MON_BUFSET=1", "MON_VARIANT=1"]),
+    # the facilities built on the hooks, with the monitor control wrapped by state_control (C08)
+    "cov4": ("asan0", ["MON_CLIENT=1", "MON_VARIANT=4"]),
+    "cov3": ("cl0", ["MON_CLIENT=1", "MON_VARIANT=3"]),
+    "trace4": ("cl0", ["MON_CLIENT=3", "MON_VARIANT=4"]),
+    "strace1": ("cl0", ["MON_CLIENT=2", "MON_VARIANT=1"]),
     "ana": ("cl0", ["MON_ANA", "MON_VARIANT=0"]),      # analyze< G >() + fuel-limited monitored run on reference loop witnesses (C11)
     "lazy1": ("cl0", ["MON_VARIANT=1", "MON_LAZY=1"]),
     "lazy3": ("cl0", ["MON_VARIANT=3", "MON_LAZY=1"]),
@@ -49,7 +56,7 @@ CONFIGS = {
 
 # standard corpus sizes: profile -> (quick count, thorough count)
 SIZES = {
-    "ctx": (360, 0),        # 0 = the whole matrix
+    "ctx": (348, 0),        # quick: every (template, slot) x 4 key gadgets, all six inherited-mode contexts each; 0 = all 8 gadgets
     "core": (100, 1200),
     "conv": (100, 1200),
     "exc": (80, 800),
